@@ -61,7 +61,7 @@ struct Probe : Module {
 static bool ref_init(int w) { if (!init_ok[w]) return false; for (int c = w + 1; c < NMOD; c++) if (par[c] == w) { if (!ref_init(c) && req[c]) return false; } return true; }
 
 extern "C" void h_lifecycle() {
-    Context *ctx = nullptr;                        // Module only stores the reference
+    alignas(16) static char ctx_store[64]; Context *ctx = reinterpret_cast<Context *>(ctx_store);   // Module only stores the reference
     Probe *m[NMOD];
     for (int i = 0; i < NMOD; i++) {
         m[i] = nullptr;
